@@ -52,6 +52,16 @@ pub fn programs(tier: Tier) -> ProgramSet {
         let source = render(&e.spec);
         out.push(Program { idx: 0, label: e.label, k: e.k, spec: e.spec, aux: json!(null), source });
     }
+    for (mut spec, label) in scale_specs() {
+        // field-less version
+        for v in spec.variants.iter_mut() {
+            v.kind = Kind::Unit;
+        }
+        if domain(&spec) {
+            let source = render(&spec);
+            out.push(Program { idx: 0, label, k: 1, spec, aux: json!(null), source });
+        }
+    }
     let mut exm = std::collections::BTreeMap::new();
     exm.insert("overlapping spellings / data variants".to_string(), ex as u64);
     ProgramSet { programs: finish(out), excluded: exm, bounds: json!({"N": 3, "k_max": k, "literal_pool": c.pool, "twins": ["plain", "use_phf"]}) }
